@@ -106,6 +106,10 @@ pub fn perr(e: &RtcpParseError) -> Obs {
         PacketTypeMismatch { actual, requested } => {
             L(vec![S("PacketTypeMismatch"), N(*actual as u128), N(*requested as u128)])
         }
+        // an error variant this harness does not know (added by a later change to the crate): printed as
+        // such, so that it shows up as a difference from the model instead of breaking the harness build
+        #[allow(unreachable_patterns)]
+        _ => L(vec![S("UnknownParseErrorVariant"), S("see-debug")]),
     }
 }
 
@@ -140,6 +144,8 @@ pub fn werr(e: &RtcpWriteError) -> Obs {
         PayloadTypeInvalid => L(vec![S("PayloadTypeInvalid")]),
         PaddingBitsTooLarge => L(vec![S("PaddingBitsTooLarge")]),
         TooManyFir => L(vec![S("TooManyFir")]),
+        #[allow(unreachable_patterns)]
+        _ => L(vec![S("UnknownWriteErrorVariant"), S("see-debug")]),
     }
 }
 
@@ -154,6 +160,14 @@ pub fn pres<T>(f: impl FnOnce() -> Result<T, RtcpParseError>, p: impl FnOnce(T) 
         Err(()) => S("PANIC"),
     }
 }
+pub fn wres_ref(r: &Result<Result<usize, RtcpWriteError>, ()>) -> Obs {
+    match r {
+        Ok(Ok(n)) => ok(I(*n)),
+        Ok(Err(e)) => err(werr(e)),
+        Err(()) => S("PANIC"),
+    }
+}
+
 pub fn wres(r: Result<Result<usize, RtcpWriteError>, ()>) -> Obs {
     match r {
         Ok(Ok(n)) => ok(I(n)),
@@ -577,6 +591,46 @@ macro_rules! uconv_val {
         }
     }};
 }
+// the same conversions on an unknown packet wrapped as Packet::Unknown (Packet::from(unknown)): the packet
+// type may then be one of the known ones, which Packet::parse never puts in that variant
+macro_rules! pconv_val {
+    ($input:expr, $ty:ty, $name:expr, $view:ident) => {{
+        match guard(|| Unknown::parse($input)) {
+            Ok(Ok(fresh)) => {
+                let wrapped = Packet::from(fresh);
+                pres(|| <$ty>::try_from(wrapped), |q| L(vec![S($name), kvs_obs($view($input, &q))]))
+            }
+            _ => S("REPARSE-FAILED"),
+        }
+    }};
+}
+fn obs_pconv(input: &[u8]) -> Option<(Obs, Obs)> {
+    let u = match guard(|| Unknown::parse(input)) {
+        Ok(Ok(u)) => u,
+        _ => return None,
+    };
+    let p = Packet::from(u);
+    let r = L(vec![
+        pres(|| p.try_as::<App>(), |q| L(vec![S("App"), kvs_obs(view_app(input, &q))])),
+        pres(|| p.try_as::<Bye>(), |q| L(vec![S("Bye"), kvs_obs(view_bye(input, &q))])),
+        pres(|| p.try_as::<ReceiverReport>(), |q| L(vec![S("Rr"), kvs_obs(view_rr(input, &q))])),
+        pres(|| p.try_as::<Sdes>(), |q| L(vec![S("Sdes"), kvs_obs(view_sdes(input, &q))])),
+        pres(|| p.try_as::<SenderReport>(), |q| L(vec![S("Sr"), kvs_obs(view_sr(input, &q))])),
+        pres(|| p.try_as::<TransportFeedback>(), |q| L(vec![S("Tfb"), kvs_obs(view_tfb(input, &q))])),
+        pres(|| p.try_as::<PayloadFeedback>(), |q| L(vec![S("Pfb"), kvs_obs(view_pfb(input, &q))])),
+    ]);
+    let v = L(vec![
+        pconv_val!(input, App, "App", view_app),
+        pconv_val!(input, Bye, "Bye", view_bye),
+        pconv_val!(input, ReceiverReport, "Rr", view_rr),
+        pconv_val!(input, Sdes, "Sdes", view_sdes),
+        pconv_val!(input, SenderReport, "Sr", view_sr),
+        pconv_val!(input, TransportFeedback, "Tfb", view_tfb),
+        pconv_val!(input, PayloadFeedback, "Pfb", view_pfb),
+    ]);
+    Some((r, v))
+}
+
 fn obs_uconv(input: &[u8], u: &Unknown) -> (Obs, Obs) {
     let r = L(vec![
         uconv_ref!(input, u, App, "App", view_app),
@@ -802,6 +856,10 @@ fn run_unknown(input: &[u8]) -> Kvs {
             let (r, v) = obs_uconv(input, &u);
             out.push(("conv".to_string(), r));
             out.push(("convv".to_string(), v));
+            if let Some((r, v)) = obs_pconv(input) {
+                out.push(("pconv".to_string(), r));
+                out.push(("pconvv".to_string(), v));
+            }
         }
     }
     out
@@ -1302,7 +1360,7 @@ fn run_build(bufspec: &str, m: &Member) -> Result<Kvs, String> {
     };
     let bufs = parse_bufs(bufspec, n)?;
     let mut out: Kvs = vec![
-        ("size".to_string(), wres(size.clone_res())),
+        ("size".to_string(), wres_ref(&size)),
         (
             "get_padding".to_string(),
             match guard(|| w.pad()) {
@@ -1331,44 +1389,6 @@ fn run_build(bufspec: &str, m: &Member) -> Result<Kvs, String> {
         }
     }
     Ok(out)
-}
-
-trait CloneRes {
-    fn clone_res(&self) -> Result<Result<usize, RtcpWriteError>, ()>;
-}
-impl CloneRes for Result<Result<usize, RtcpWriteError>, ()> {
-    fn clone_res(&self) -> Result<Result<usize, RtcpWriteError>, ()> {
-        match self {
-            Ok(Ok(n)) => Ok(Ok(*n)),
-            Ok(Err(e)) => Ok(Err(clone_werr(e))),
-            Err(()) => Err(()),
-        }
-    }
-}
-pub fn clone_werr(e: &RtcpWriteError) -> RtcpWriteError {
-    use RtcpWriteError::*;
-    match e {
-        OutputTooSmall(n) => OutputTooSmall(*n),
-        InvalidPadding { padding } => InvalidPadding { padding: *padding },
-        AppSubtypeOutOfRange { subtype, max } => AppSubtypeOutOfRange { subtype: *subtype, max: *max },
-        InvalidName => InvalidName,
-        DataLen32bitMultiple(n) => DataLen32bitMultiple(*n),
-        TooManySources { count, max } => TooManySources { count: *count, max: *max },
-        ReasonLenTooLarge { len, max } => ReasonLenTooLarge { len: *len, max: *max },
-        CumulativeLostTooLarge { value, max } => CumulativeLostTooLarge { value: *value, max: *max },
-        TooManyReportBlocks { count, max } => TooManyReportBlocks { count: *count, max: *max },
-        TooManySdesChunks { count, max } => TooManySdesChunks { count: *count, max: *max },
-        SdesValueTooLarge { len, max } => SdesValueTooLarge { len: *len, max: *max },
-        SdesPrivPrefixTooLarge { len, max } => SdesPrivPrefixTooLarge { len: *len, max: *max },
-        CountOutOfRange { count, max } => CountOutOfRange { count: *count, max: *max },
-        NonLastCompoundPacketPadding => NonLastCompoundPacketPadding,
-        MissingFci => MissingFci,
-        TooManyNack => TooManyNack,
-        FciWrongFeedbackPacketType => FciWrongFeedbackPacketType,
-        PayloadTypeInvalid => PayloadTypeInvalid,
-        PaddingBitsTooLarge => PaddingBitsTooLarge,
-        TooManyFir => TooManyFir,
-    }
 }
 
 fn run_chunk(bufspec: &str, c: &ChunkCfg) -> Result<Kvs, String> {
